@@ -439,10 +439,7 @@ func rulePure(p *Prog, r *Report) {
 		}
 	}
 	nf := 0
-	for _, f := range fns {
-		if f.Origin() != nil {
-			continue // generic instances: the generic body is analysed once
-		}
+	for _, f := range p.Representatives(fns) {
 		nf++
 		a.checkFn(f)
 	}
